@@ -91,7 +91,8 @@ def _classify(ctx, what, env, runs, lockstep, dist, distinct, samples, base):
 def run(ctx):
     ctx.cov["trusted_base"] += [
         "vrt/vrt.cpp (TSan-ABI interposition, deterministic scheduler, virtual clock, futex emulation, vector-clock race monitor) and the TSan-instrumented build (differs from production in the places listed in DESIGN 3.3)",
-        "executions are sequentially consistent interleavings at atomic-operation granularity; memory orders are tied statically (generated skeleton / order obligations, the model's happens-before ghost uses the generated orders) and dynamically (trace equality, HB race monitor on the value storage); weak-memory reorderings are not simulated",
+        "the protocol theorems (exactly-once, no lost wake-up, wait_for, latch) are over sequentially consistent interleavings at atomic-operation granularity; publication of the value is additionally proved over the release/acquire view model of Core/MemView.lean with stale reads (fut_publication_view, fut_publication_view_hb; negative controls with a relaxed publishing / observing operation), with the orders taken from the generated constants (gen_view_orders); dynamically: trace equality of orders, HB race monitor on the value storage, VRT view-mode oracle pass",
+        "view model strengthenings S1-S3 of Core/MemView.lean (modification order = execution order, no load buffering, seq_cst RMW = SC fence); the value storage (a plain object) is modelled as a location written once and read with relaxed accesses: 'reader sees the value' = the reader's view contains the write, so no admissible read returns the unconstructed content",
         "kernel futex contract as modelled: FUTEX_WAIT sleeps only if the word equals the expected value, FUTEX_WAKE(INT32_MAX) wakes every sleeper, spurious wake-ups allowed; clock_gettime(CLOCK_MONOTONIC) succeeds, is monotone and stays below 2^63 ns",
         "`then` is checked compositionally: it is an on_finish of a wrapping callback plus a set_value on a second, separately modelled promise; the chained future is checked by the harness oracle only",
     ]
